@@ -178,11 +178,14 @@ impl LogReader {
     {
         // We assume that the caller always provide a valid data entry so we can expand the Mmap
         // and try reading with the `len` and `pos`.
-        if pos >= self.mmap.len() as u64 {
+        if pos + len > self.mmap.len() as u64 {
             self.mmap = memmap2::MmapOptions::new().map(&self.file)?;
         }
         let start = pos as usize;
         let end = start + len as usize;
+        if end > self.mmap.len() {
+            return Err(io::Error::from(io::ErrorKind::UnexpectedEof).into());
+        }
         bincode::deserialize(&self.mmap[(start..end)])
     }
 
@@ -198,11 +201,14 @@ impl LogReader {
     {
         // We assume that the caller always provide a valid data entry so we can expand the Mmap
         // and try reading with the `len` and `pos`.
-        if pos >= self.mmap.len() as u64 {
+        if pos + len > self.mmap.len() as u64 {
             self.mmap = memmap2::MmapOptions::new().map(&self.file)?;
         }
         let start = pos as usize;
         let end = start + len as usize;
+        if end > self.mmap.len() {
+            return Err(io::ErrorKind::UnexpectedEof.into());
+        }
         io::copy(&mut self.mmap[start..end].reader(), dst)
     }
 }
